@@ -665,7 +665,13 @@ def build_scenario(kind, v):
             add_signs = {it: (s + [1, 1])[:2] for it, s in signs.items()}
             return scenario(pre, vals, adds=adds, split_after=sa, add_signs=add_signs, check_capacity=True)
         if kind == "delete":
-            return scenario(pre, vals, dels=vals.get("set:to_delete", []), split_after=sa, check_capacity=True)
+            # ids of the update set that are still stored are overwrites (the new vector goes to the
+            # opposite side of every plane), the others are deletions
+            pos = placement(pre, vals)
+            over = [i for i in vals.get("set:overwritten_items", []) if i in vals.get("set:to_delete", []) and i in pos]
+            dels = [i for i in vals.get("set:to_delete", []) if i not in over]
+            signs = {i: [-x for x in pos[i]] or [-1, -1] for i in over}
+            return scenario(pre, vals, adds=over, add_signs=signs, dels=dels, split_after=sa, check_capacity=True)
         if kind == "history":
             import e2_build
             return e2_build.history_scenario(v)
@@ -710,7 +716,10 @@ def run_delete(ctx, shapes, deadline, faults=False):
         index = z3.BitVec("index", 16)
         pc = list(pre.cond) + [DIMS_OK, z3.UGE(split_after, 1), z3.ULE(split_after, 3)]
         remaining = pre.items & ~dele
+        # the update set holds deleted ids (gone from the database) and overwritten ids (still there)
+        overwritten = z3.BitVec("overwritten_items", U)
         env = {"store": dict(pre.store), "frozen": dict(pre.store), "stored_items": remaining,
+               "db_items": remaining | (overwritten & dele & pre.items),
                "leafs": BV(0, U), "tmp": {"puts": [], "deleted": [], "remap": []}, "sides": []}
         if faults:
             env["cancel_from"] = z3.BitVec("cancel_from_poll", 32)
@@ -723,7 +732,7 @@ def run_delete(ctx, shapes, deadline, faults=False):
         n_ok = 0
         for f in finals:
             results["paths"] += 1
-            extra = [("set:to_delete", dele), ("split_after", split_after)]
+            extra = [("set:to_delete", dele), ("split_after", split_after), ("set:overwritten_items", overwritten)]
             if f.status in ("unknown", "unwind"):
                 results["unknown"].append(f"{shape.name}: {f.status}: {f.info}")
                 continue
